@@ -53,6 +53,11 @@ func New(
 func (vm *VotingMachine) CollectVote(vote hotstuff.VoteMsg) {
 	cert := vote.PartialCert
 	vm.logger.Debugf("CollectVote(from %d): %s", vote.ID, cert.BlockHash().SmallString())
+	// a vote is the signature of a single replica; aggregates are not votes
+	if sig := cert.Signature(); sig == nil || sig.Participants().Len() != 1 {
+		vm.logger.Info("ignoring vote that is not signed by exactly one replica")
+		return
+	}
 	var (
 		block *hotstuff.Block
 		ok    bool
